@@ -103,12 +103,12 @@ func (h *H) aliasRound(A, B, C *Node, i int, alias string, aliases []string) {
 	}
 	// Tell
 	A.Sys.Tell(aref, &XMsg{Kind: KTell, Seq: uint64(7000 + i)})
-	if !waitUntil(3*time.Second, func() bool { tl.mu.Lock(); defer tl.mu.Unlock(); return tl.pings >= 1 }) {
+	if !waitUntil(opWait, func() bool { tl.mu.Lock(); defer tl.mu.Unlock(); return tl.pings >= 1 }) {
 		fail("Tell")
 		return
 	}
 	// Ask / Reply
-	rep, err := A.Sys.Ask(aref, &XMsg{Kind: KAsk, Seq: uint64(7100 + i), Data: []byte("alias")}, 3*time.Second).Result()
+	rep, err := A.Sys.Ask(aref, &XMsg{Kind: KAsk, Seq: uint64(7100 + i), Data: []byte("alias")}, askWait).Result()
 	if x, ok := rep.(*XMsg); err != nil || !ok || x.Kind != KReply || x.Seq != uint64(7100+i) || string(x.Data) != "alias" {
 		fail(fmt.Sprintf("Ask (reply %T %+v, error %v)", rep, rep, err))
 		return
@@ -124,16 +124,15 @@ func (h *H) aliasRound(A, B, C *Node, i int, alias string, aliases []string) {
 			fail("Ping (" + r + ")")
 			return
 		}
-	case <-time.After(8 * time.Second):
-		fail("Ping (no return within 8 s)")
+	case <-time.After(callWait):
+		fail(fmt.Sprintf("Ping (no return within %v)", callWait))
 		return
 	}
 	// Watch from A (through the alias) and from C (through the advertised address), then Kill through the alias
 	cl := &agentLog{}
 	cw := spawnAgent(C, fmt.Sprintf("alias-agent-%d", i), cl)
-	A.Sys.Tell(ag, &doWatch{aref})
-	C.Sys.Tell(cw, &doWatch{remoteOf(B, tref)})
-	time.Sleep(2 * time.Millisecond)
+	watchAck(A, ag, aref)
+	watchAck(C, cw, remoteOf(B, tref))
 	if err := settle(A, aref); err != nil {
 		fail(fmt.Sprintf("Ask after Watch (%v)", err))
 		return
@@ -145,7 +144,7 @@ func (h *H) aliasRound(A, B, C *Node, i int, alias string, aliases []string) {
 	poison := i%2 == 1
 	reason := fmt.Sprintf("alias-why-%d", i)
 	A.Sys.Tell(ag, &doKill{aref, poison, reason})
-	ok := waitUntil(5*time.Second, func() bool { return wl.nKilled() >= 1 && cl.nKilled() >= 1 })
+	ok := waitUntil(opWait, func() bool { return wl.nKilled() >= 1 && cl.nKilled() >= 1 })
 	time.Sleep(15 * time.Millisecond) // duplicates
 	tl.mu.Lock()
 	kills := append([]string(nil), tl.kills...)
